@@ -90,6 +90,44 @@ Proof.
     simpl in H. eapply IH; eauto.
 Qed.
 
+(* where the inode number a lookup returns comes from: a directory it stands in, or an entry *)
+Lemma walk_ino_src fuel f : forall rt cur cs fl n r i,
+  walk fuel f rt cur cs fl n = inl r -> l_ino r = Some i ->
+  is_dir f i = true \/ exists j nme, blookup nme (dents f j) = Some i.
+Proof.
+  induction fuel as [|fuel IH]; intros rt cur cs fl n r i H Hi; [discriminate|].
+  cbn [walk] in H. destruct (dir_of f cur) as [[par ents]|] eqn:Ed; [|discriminate].
+  destruct cs as [|x rest].
+  - inversion H; subst. simpl in Hi. inversion Hi; subst. left. unfold is_dir. rewrite Ed. reflexivity.
+  - destruct (bytes_eqb x s_dot); [eapply IH; eauto|].
+    destruct (bytes_eqb x s_dotdot); [eapply IH; eauto|].
+    destruct (blookup x ents) as [i0|] eqn:Eb.
+    + assert (Hsrc : blookup x (dents f cur) = Some i0) by (unfold dents; rewrite Ed; auto).
+      assert (Hfin : @inl lres errno {| l_dir := cur; l_name := x; l_ino := Some i0 |} = inl r ->
+                     is_dir f i = true \/ exists j nme, blookup nme (dents f j) = Some i).
+      { intros E0. inversion E0; subst. simpl in Hi. inversion Hi; subst. right; eauto. }
+      destruct (get f i0) as [[[p0 es|dd|t|ty rd] m]|].
+      * destruct (is_nil rest); [eapply Hfin; eauto|eapply IH; eauto].
+      * destruct (is_nil rest); [eapply Hfin; eauto|eapply IH; eauto].
+      * destruct (is_nil rest && negb fl); [eapply Hfin; eauto|].
+        destruct (N.leb max_symlinks n); [discriminate|]. destruct (is_nil t); [discriminate|]. eapply IH; eauto.
+      * destruct (is_nil rest); [eapply Hfin; eauto|eapply IH; eauto].
+      * destruct (is_nil rest); [eapply Hfin; eauto|eapply IH; eauto].
+    + destruct (is_nil rest); [|discriminate]. inversion H; subst. simpl in Hi. discriminate.
+Qed.
+
+Lemma resolve_ino_src c f p fl i : resolve_ino c f p fl = inl i ->
+  is_dir f i = true \/ exists j nme, blookup nme (dents f j) = Some i.
+Proof.
+  unfold resolve_ino, resolve. destruct p as [|a p]; [discriminate|].
+  destruct (has_nul (a :: p)); [discriminate|].
+  destruct (walk rfuel f (c_root c) _ _ _ 0) as [r|e] eqn:E; [|discriminate].
+  destruct (ends_with_sep (a :: p)).
+  - destruct (l_ino r) as [i0|] eqn:Ei; [|discriminate]. destruct (is_dir f i0); [|discriminate].
+    rewrite Ei. intros H. inversion H; subst. eapply walk_ino_src; eauto.
+  - destruct (l_ino r) as [i0|] eqn:Ei; [|discriminate]. intros H. inversion H; subst. eapply walk_ino_src; eauto.
+Qed.
+
 Section Safe.
   Variables (c : ctx) (f0 : fs) (dr : N) (dcs : list bytes).
   Let rt := c_root c.
@@ -222,12 +260,12 @@ Section Safe.
   Qed.
 
   Lemma eff_add f cs d x i :
-    Ctx f -> chain f dr cs d -> is_dir f i = false -> blookup x (dents f d) = None -> okn x ->
+    Ctx f -> chain f dr cs d -> is_dir f i = false -> blookup x (dents f d) = None -> okn x -> i < f_next f ->
     let f' := add_ent f d x i in
     Ctx f' /\ above d f f' /\ blookup x (dents f' d) = Some i /\
     (forall y, y <> x -> blookup y (dents f' d) = blookup y (dents f d)).
   Proof.
-    intros C Hc Hi Hnone Hokn f'. pose proof (cx_inv f C) as I.
+    intros C Hc Hi Hnone Hokn Hilt f'. pose proof (cx_inv f C) as I.
     pose proof (chain_end_dir _ _ _ _ Hc) as Hd.
     pose proof (ctx_dir_SS f cs _ C Hc) as Hs.
     assert (I' : Inv f0 dr f') by (apply inv_add_ent; auto).
